@@ -39,7 +39,11 @@ META = {'design_ref': 'DESIGN.md section 7 / C08',
                'discharged in the codec / validation / alias developments or stated as premises.',
  'level_text': 'Coq theorems for every engine state: C08_nst_queue_mirrors_dequeue / C08_dequeue_iff (the reported time is "now" exactly when dequeue would '
                'hand out an operation or an operation is half encoded), C08_pending_write_blocks, C08_reported_time_is_min, C08_no_lost_wakeup (work that can '
-               'be performed now => reported time <= now), C08_timers_honoured (the reported time is not later than any armed ping / ping-timeout / '
+               'be performed now => reported time <= now; both under the premise that a CONNACK deadline is set while PendingConnack), their run-level forms '
+               'C08_reported_time_is_min_run / C08_no_lost_wakeup_run WITHOUT that premise (it is a conjunct of the engine well-formedness invariant, '
+               'EngineProofs/WF*.v + SvcTimeWF.v: they hold in every state reachable by any event history, for components satisfying comps_ok) and '
+               'C08_instance_reported_time_is_min / C08_instance_no_lost_wakeup (the same for the concrete engine of Engine/Instance.v, only ok_cfg / '
+               'ok_event left), C08_timers_honoured (the reported time is not later than any armed ping / ping-timeout / '
                'ack-timeout / CONNACK deadline). The liveness half (bounded completion against a responsive broker) is NOT proved: it is explored by the '
                'lock-step histories whose simulated driver services only at reported times, with monitors mon_c08_wakeup and mon_c08_spin — partial.',
  'technique': 'machine-checked proof in Coq over the engine model + lock-step correspondence of the extracted model with the implementation + extracted '
